@@ -893,3 +893,727 @@ Section CompExt2.
       ext_chain.
   Qed.
 End CompExt2.
+
+(* ------------------------------------------------------------------ *)
+(* running a fragment *)
+Definition omap {X Y} (k : X -> Y) (o : outcome X) : outcome Y :=
+  match o with OVal x => OVal (k x) | OFail f => OFail f | OFault f => OFault f end.
+
+Lemma skipn_more : forall X (l : list X) n a b, skipn n l = a ++ b -> skipn (n + List.length a) l = b.
+Proof.
+  intros X l n. revert l. induction n as [|n IH]; intros l a b H.
+  - cbn in H. subst l. cbn. rewrite skipn_app, skipn_all, Nat.sub_diag. reflexivity.
+  - destruct l as [|x l].
+    + cbn in H. symmetry in H. apply app_eq_nil in H. destruct H; subst. reflexivity.
+    + cbn in H. cbn. apply IH. exact H.
+Qed.
+
+Lemma read16_b16 : forall n r, read16 (b16 n ++ r) = ret (n, r).
+Proof.
+  intros n r. unfold b16, read16. cbn [app]. f_equal. f_equal. f_equal.
+  pose proof (N.div_mod n 256). lia.
+Qed.
+
+Lemma read_const_b16 : forall pool n r c, nth_error pool (N.to_nat n) = Some c -> read_const pool (b16 n ++ r) = ret (c, r).
+Proof. intros pool n r c H. unfold read_const. rewrite read16_b16, mbind_ret_l, H. reflexivity. Qed.
+
+Lemma pop_n_app : forall ys s acc, pop_n (List.length ys) (ys ++ s) acc = ret (rev ys ++ acc, s).
+Proof.
+  induction ys as [|y ys IH]; intros s acc; cbn [List.length pop_n app rev].
+  - reflexivity.
+  - unfold pop at 1. rewrite mbind_ret_l, IH, <- app_assoc. reflexivity.
+Qed.
+
+Lemma pop_n_rev : forall xs s, pop_n (List.length xs) (rev xs ++ s) [] = ret (xs, s).
+Proof. intros xs s. rewrite <- (rev_length xs), pop_n_app, rev_involutive, app_nil_r. reflexivity. Qed.
+
+Lemma pop_val_SV : forall v s, pop_val (SV v :: s) = ret (v, s).
+Proof. intros. unfold pop_val, pop. rewrite mbind_ret_l. reflexivity. Qed.
+
+Lemma vals_of_SV : forall vs, vals_of (map SV vs) = ret vs.
+Proof.
+  unfold vals_of. induction vs as [|v vs IH]; [reflexivity|].
+  cbn [map mmapM]. rewrite mbind_ret_l. cbn [map mmapM] in IH. rewrite IH, mbind_ret_l. reflexivity.
+Qed.
+
+Ltac mret := rewrite mbind_ret_l; cbv beta iota.
+
+Definition pool_ext (p1 p2 : list const) : Prop := exists q, p2 = p1 ++ q.
+Lemma pool_ext_refl : forall p, pool_ext p p.
+Proof. intros p. exists []. rewrite app_nil_r. reflexivity. Qed.
+Lemma pool_ext_trans : forall a b c, pool_ext a b -> pool_ext b c -> pool_ext a c.
+Proof. intros a b c [q1 H1] [q2 H2]. exists (q1 ++ q2). rewrite H2, H1, app_assoc. reflexivity. Qed.
+Lemma pool_ext_nth : forall a b i c, pool_ext a b -> nth_error a i = Some c -> nth_error b i = Some c.
+Proof.
+  intros a b i c [q H] Hn. subst b. rewrite nth_error_app1; [exact Hn|].
+  apply nth_error_Some. rewrite Hn. discriminate.
+Qed.
+Lemma ext_pool_ext : forall a b f p, ext a b f p -> pool_ext (pool_of a) (pool_of b).
+Proof. intros a b f p E. exists p. apply (ext_pool _ _ _ _ E). Qed.
+
+(* the constant appended by a step sits at the index the step emitted *)
+Lemma pool_new_nth : forall a b f c, wf a -> ext a b f [c] -> nth_error (pool_of b) (N.to_nat (cs_plen a)) = Some c.
+Proof.
+  intros a b f c [_ W2] E. rewrite (ext_pool _ _ _ _ E).
+  assert (Hn : N.to_nat (cs_plen a) = List.length (pool_of a)) by (unfold pool_of; rewrite rev_length; lia).
+  rewrite Hn, nth_error_app2, Nat.sub_diag; [reflexivity|lia].
+Qed.
+
+Lemma mbind_assoc : forall X Y Z (m : M X) (k1 : X -> M Y) (k2 : Y -> M Z),
+  mbind (mbind m k1) k2 = mbind m (fun x => mbind (k1 x) k2).
+Proof.
+  intros X Y Z [t [x|kf|kf]] k1 k2; try reflexivity.
+  cbn. destruct (k1 x) as [t1 [y|kf|kf]]; try reflexivity.
+  cbn. destruct (k2 y) as [t2 o2]. rewrite app_assoc. reflexivity.
+Qed.
+
+Section Exec.
+  Variable ops : numops.
+  Variable orc : oracles.
+  Variable rho : venv.
+  Variable pool : list const.
+  Variable run : list N -> M val.
+  Variable code : list N.
+  Notation loop := (vloop ops orc rho pool run code).
+  Notation vop' := (vop ops orc rho pool run code).
+
+  Definition runs (frag c2 : list N) (s : list sval) (t : list event) (o : outcome (list sval)) : Prop :=
+    forall g, (List.length frag <= g)%nat ->
+    match o with
+    | OVal s' => exists g', (g <= g' + List.length frag)%nat /\ loop g (frag ++ c2) s None = tpre t (loop g' c2 s' None)
+    | OFail k => loop g (frag ++ c2) s None = (t, OFail k)
+    | OFault _ => True
+    end.
+
+  Lemma runs_nil : forall c2 s, runs [] c2 s [] (OVal s).
+  Proof. intros c2 s g _. exists g. split; [cbn; lia|]. rewrite tpre_nil. reflexivity. Qed.
+
+  Lemma runs_seq : forall f1 f2 c2 s t1 s1 t2 o,
+    runs f1 (f2 ++ c2) s t1 (OVal s1) -> runs f2 c2 s1 t2 o -> runs (f1 ++ f2) c2 s (t1 ++ t2) o.
+  Proof.
+    intros f1 f2 c2 s t1 s1 t2 o H1 H2 g Hg. rewrite app_length in Hg.
+    destruct (H1 g ltac:(lia)) as [g1 [Hg1 E1]]. rewrite <- app_assoc, E1.
+    specialize (H2 g1 ltac:(lia)). destruct o as [s'|k|k].
+    - destruct H2 as [g2 [Hg2 E2]]. exists g2. split; [rewrite app_length; lia|]. rewrite E2, tpre_tpre. reflexivity.
+    - rewrite H2. reflexivity.
+    - exact I.
+  Qed.
+
+  Lemma runs_seq_fail : forall f1 f2 c2 s t1 k,
+    runs f1 (f2 ++ c2) s t1 (OFail k) -> runs (f1 ++ f2) c2 s t1 (OFail k).
+  Proof.
+    intros f1 f2 c2 s t1 k H1 g Hg. rewrite app_length in Hg.
+    rewrite <- app_assoc. apply (H1 g). lia.
+  Qed.
+
+  Lemma loop_S : forall g o r s,
+    loop (S g) (op_byte o :: r) s None = vop' (fun r s => loop g r s None) o r s.
+  Proof. intros. cbn [vloop option_map]. rewrite decode_op_byte. reflexivity. Qed.
+
+  (* one instruction: its effect is a computation [m] whose value determines the next stack *)
+  Lemma runs_instr : forall X o tail c2 s (m : M X) (k : X -> list sval) t ox,
+    (forall g, vop' (fun r s => loop g r s None) o (tail ++ c2) s = mbind m (fun x => loop g c2 (k x) None)) ->
+    m = (t, ox) -> runs (op_byte o :: tail) c2 s t (omap k ox).
+  Proof.
+    intros X o tail c2 s m k t ox H Hm g Hg. cbn [List.length] in Hg.
+    destruct g as [|g]; [lia|]. cbn [app]. rewrite loop_S, H, Hm.
+    destruct ox as [x|kf|kf]; cbn [omap].
+    - exists g. split; [cbn [List.length]; lia|]. apply mbind_val.
+    - reflexivity.
+    - exact I.
+  Qed.
+
+  Lemma runs_instr0 : forall o tail c2 s s',
+    (forall g, vop' (fun r s => loop g r s None) o (tail ++ c2) s = loop g c2 s' None) ->
+    runs (op_byte o :: tail) c2 s [] (OVal s').
+  Proof.
+    intros o tail c2 s s' H.
+    apply (runs_instr unit o tail c2 s (ret tt) (fun _ => s') [] (OVal tt)); [|reflexivity].
+    intros g. rewrite mbind_ret_l. apply H.
+  Qed.
+
+  Lemma instr_const : forall idx v c2 s, nth_error pool (N.to_nat idx) = Some (CVal v) ->
+    runs (op_byte OP_CONST :: b16 idx) c2 s [] (OVal (SV v :: s)).
+  Proof.
+    intros idx v c2 s H. apply runs_instr0. intros g. cbn [vop].
+    rewrite (read_const_b16 _ _ _ _ H), mbind_ret_l. reflexivity.
+  Qed.
+
+  Lemma instr_thunk : forall idx body rt c2 s, nth_error pool (N.to_nat idx) = Some (CThunk body rt) ->
+    runs (op_byte OP_CONST :: b16 idx) c2 s [] (OVal (STh body rt :: s)).
+  Proof.
+    intros idx body rt c2 s H. apply runs_instr0. intros g. cbn [vop].
+    rewrite (read_const_b16 _ _ _ _ H), mbind_ret_l. reflexivity.
+  Qed.
+
+  Lemma instr_load : forall idx nm v c2 s, nth_error pool (N.to_nat idx) = Some (CName nm) -> assoc nm rho = Some v ->
+    runs (op_byte OP_LOAD :: b16 idx) c2 s [] (OVal (SV v :: s)).
+  Proof.
+    intros idx nm v c2 s H Ha. apply runs_instr0. intros g. cbn [vop].
+    rewrite (read_const_b16 _ _ _ _ H), mbind_ret_l, Ha. reflexivity.
+  Qed.
+
+  Lemma instr_jump : forall t junk c2 s, skipn (N.to_nat t) code = c2 ->
+    runs (op_byte OP_JUMP :: b16 t ++ junk) c2 s [] (OVal s).
+  Proof.
+    intros t junk c2 s H. apply runs_instr0. intros g. cbn [vop].
+    rewrite <- app_assoc, read16_b16, mbind_ret_l, H. reflexivity.
+  Qed.
+
+  Lemma instr_if_true : forall t c2 s,
+    runs (op_byte OP_IF_TRUE :: b16 t) c2 (SV (VBool true) :: s) [] (OVal s).
+  Proof.
+    intros t c2 s. apply runs_instr0. intros g. cbn [vop].
+    rewrite read16_b16, mbind_ret_l, pop_val_SV, mbind_ret_l. cbn [as_bool]. rewrite mbind_ret_l. reflexivity.
+  Qed.
+
+  Lemma instr_if_false : forall t junk c2 s, skipn (N.to_nat t) code = c2 ->
+    runs (op_byte OP_IF_TRUE :: b16 t ++ junk) c2 (SV (VBool false) :: s) [] (OVal s).
+  Proof.
+    intros t junk c2 s H. apply runs_instr0. intros g. cbn [vop].
+    rewrite <- app_assoc, read16_b16, mbind_ret_l, pop_val_SV, mbind_ret_l. cbn [as_bool].
+    rewrite mbind_ret_l, H. reflexivity.
+  Qed.
+
+  Definition vm_entries : list val -> list (list N * val) -> M (list (list N * val)) :=
+    fix go (vs : list val) (acc : list (list N * val)) : M (list (list N * val)) :=
+      match vs with
+      | k :: v :: rr => let^ kk := key_of ops k in go rr (kput kk v acc)
+      | _ => ret acc
+      end.
+
+  Lemma instr_new_list : forall idx e vs c2 s, nth_error pool (N.to_nat idx) = Some (CType (TList e)) ->
+    runs (op_byte OP_NEW_LIST :: b16 idx ++ b16 (N.of_nat (List.length vs))) c2 (rev (map SV vs) ++ s) []
+         (OVal (SV (VList (TList e) vs) :: s)).
+  Proof.
+    intros idx e vs c2 s H. apply runs_instr0. intros g. cbn [vop].
+    rewrite <- app_assoc, (read_const_b16 _ _ _ _ H). mret. rewrite read16_b16. mret.
+    rewrite Nat2N.id. rewrite <- (map_length SV vs), pop_n_rev. mret. rewrite vals_of_SV. mret. reflexivity.
+  Qed.
+
+  Lemma instr_new_map : forall idx kt vt vs sz entries c2 s,
+    nth_error pool (N.to_nat idx) = Some (CType (TMap kt vt)) ->
+    List.length vs = (2 * sz)%nat -> vm_entries vs [] = ret entries ->
+    runs (op_byte OP_NEW_MAP :: b16 idx ++ b16 (N.of_nat sz)) c2 (rev (map SV vs) ++ s) []
+         (OVal (SV (VMap (TMap kt vt) entries) :: s)).
+  Proof.
+    intros idx kt vt vs sz entries c2 s H Hl He. apply runs_instr0. intros g. cbn [vop].
+    rewrite <- app_assoc, (read_const_b16 _ _ _ _ H). mret. rewrite read16_b16. mret.
+    rewrite Nat2N.id, <- Hl. rewrite <- (map_length SV vs), pop_n_rev. mret. rewrite vals_of_SV. mret.
+    change (mbind (vm_entries vs []) (fun entries0 => vloop ops orc rho pool run code g c2 (SV (VMap (TMap kt vt) entries0) :: s) None) =
+            vloop ops orc rho pool run code g c2 (SV (VMap (TMap kt vt) entries) :: s) None).
+    rewrite He, mbind_ret_l. reflexivity.
+  Qed.
+
+  Lemma instr_new_obj : forall idx fs vs c2 s, nth_error pool (N.to_nat idx) = Some (CType (TObj fs)) ->
+    len fs = List.length vs ->
+    runs (op_byte OP_NEW_OBJ :: b16 idx) c2 (rev (map SV vs) ++ s) [] (OVal (SV (VObj (TObj fs) vs) :: s)).
+  Proof.
+    intros idx fs vs c2 s H Hl. apply runs_instr0. intros g. cbn [vop].
+    rewrite (read_const_b16 _ _ _ _ H). mret.
+    rewrite Hl, <- (map_length SV vs), pop_n_rev. mret. rewrite vals_of_SV. mret. reflexivity.
+  Qed.
+
+  Definition list_load_m (iv : val) (vs : list val) : M val :=
+    let^ n := as_num iv in
+    let idx := to_i64 ops n in
+    if Z.ltb idx 0 || Z.leb (Z.of_nat (len vs)) idx then fail FIndex
+    else match nth_error vs (Z.to_nat idx) with Some e => ret e | None => fail FIndex end.
+
+  Lemma instr_list_load : forall iv ty vs c2 s t ox, list_load_m iv vs = (t, ox) ->
+    runs [op_byte OP_LIST_LOAD] c2 (SV iv :: SV (VList ty vs) :: s) t (omap (fun e => SV e :: s) ox).
+  Proof.
+    intros iv ty vs c2 s t ox H. apply (runs_instr _ OP_LIST_LOAD [] c2 _ (list_load_m iv vs)); [|exact H].
+    intros g. cbn [vop app]. rewrite pop_val_SV. mret. unfold list_load_m.
+    destruct iv; try reflexivity. cbn [as_num]. rewrite !mbind_ret_l. cbv beta iota. rewrite pop_val_SV. mret. cbn [as_list].
+    mret.
+    destruct (Z.ltb (to_i64 ops b) 0 || Z.leb (Z.of_nat (len vs)) (to_i64 ops b)); [reflexivity|].
+    destruct (nth_error vs (Z.to_nat (to_i64 ops b))); [rewrite mbind_ret_l|]; reflexivity.
+  Qed.
+
+  Definition map_load_m (kv : val) (kvs : list (list N * val)) : M val :=
+    let^ kk := key_of ops kv in
+    match kget kk kvs with Some e => ret e | None => fail FKey end.
+
+  Lemma instr_map_load : forall kv ty kvs c2 s t ox, map_load_m kv kvs = (t, ox) ->
+    runs [op_byte OP_MAP_LOAD] c2 (SV kv :: SV (VMap ty kvs) :: s) t (omap (fun e => SV e :: s) ox).
+  Proof.
+    intros kv ty kvs c2 s t ox H. apply (runs_instr _ OP_MAP_LOAD [] c2 _ (map_load_m kv kvs)); [|exact H].
+    intros g. cbn [vop app]. rewrite pop_val_SV. mret. rewrite pop_val_SV. mret. cbn [as_map].
+    mret. unfold map_load_m. rewrite mbind_assoc.
+    destruct (key_of ops kv) as [tk [kk|kf|kf]]; try reflexivity.
+    rewrite !mbind_val. f_equal.
+    destruct (kget kk kvs); [rewrite mbind_ret_l|]; reflexivity.
+  Qed.
+
+  Definition member_m (ov : val) (idx : nat) (name : string) : M val :=
+    match ov with
+    | VObj t vs => match obj_load t vs idx name with Some e => ret e | None => fault XNil end
+    | _ => fault XTypeConf
+    end.
+
+  Lemma instr_obj_load : forall idx cidx nm ov c2 s t ox,
+    nth_error pool (N.to_nat cidx) = Some (CName nm) -> member_m ov idx nm = (t, ox) ->
+    runs (op_byte OP_OBJ_LOAD :: b16 (N.of_nat idx) ++ b16 cidx) c2 (SV ov :: s) t (omap (fun e => SV e :: s) ox).
+  Proof.
+    intros idx cidx nm ov c2 s t ox Hp H. apply (runs_instr _ OP_OBJ_LOAD _ c2 _ (member_m ov idx nm)); [|exact H].
+    intros g. cbn [vop]. rewrite <- app_assoc, read16_b16. mret. rewrite (read_const_b16 _ _ _ _ Hp). mret.
+    rewrite pop_val_SV. mret. rewrite Nat2N.id. unfold member_m.
+    destruct ov; try reflexivity.
+    destruct (obj_load t0 vs idx nm); [rewrite mbind_ret_l|]; reflexivity.
+  Qed.
+
+  Lemma instr_call_by_value : forall cidx sg vs c2 s t ox,
+    nth_error pool (N.to_nat cidx) = Some (CFun sg) -> apply_strict ops orc sg vs = (t, ox) ->
+    runs (op_byte OP_CALL_BY_VALUE :: b16 cidx ++ [N.of_nat (List.length vs)]) c2 (rev (map SV vs) ++ s) t
+         (omap (fun e => SV e :: s) ox).
+  Proof.
+    intros cidx sg vs c2 s t ox Hp H. apply (runs_instr _ OP_CALL_BY_VALUE _ c2 _ (apply_strict ops orc sg vs)); [|exact H].
+    intros g. cbn [vop]. rewrite <- app_assoc, (read_const_b16 _ _ _ _ Hp). mret. cbn [app read8].
+    mret. rewrite Nat2N.id, <- (map_length SV vs), pop_n_rev. mret. rewrite vals_of_SV. mret. reflexivity.
+  Qed.
+
+  Definition lazy_m (sg : fsig) (xs : list sval) : M val :=
+    let^ ths := mmapM (thunk_of run) xs in
+    (if sig_is_builtin sg then apply_lazy sg else host_lazy (s_name sg)) ths.
+
+  Lemma instr_call_by_need : forall cidx sg xs c2 s t ox,
+    nth_error pool (N.to_nat cidx) = Some (CFun sg) -> lazy_m sg xs = (t, ox) ->
+    runs (op_byte OP_CALL_BY_NEED :: b16 cidx ++ [N.of_nat (List.length xs)]) c2 (rev xs ++ s) t
+         (omap (fun e => SV e :: s) ox).
+  Proof.
+    intros cidx sg xs c2 s t ox Hp H. apply (runs_instr _ OP_CALL_BY_NEED _ c2 _ (lazy_m sg xs)); [|exact H].
+    intros g. cbn [vop]. rewrite <- app_assoc, (read_const_b16 _ _ _ _ Hp). mret. cbn [app read8].
+    mret. rewrite Nat2N.id, pop_n_rev. mret. unfold lazy_m. rewrite mbind_assoc. reflexivity.
+  Qed.
+
+  Definition dyn_m (fv : val) (vs : list val) : M val :=
+    match fv with
+    | VFun (TFun _ ps rt) name lz =>
+        if lz then fault XNil else apply_strict ops orc (mkSig name ps rt false) vs
+    | _ => fault XTypeConf
+    end.
+
+  Lemma instr_dynamic_call : forall fv vs c2 s t ox, dyn_m fv vs = (t, ox) ->
+    runs [op_byte OP_DYNAMIC_CALL; N.of_nat (List.length vs)] c2 (rev (map SV vs) ++ SV fv :: s) t
+         (omap (fun e => SV e :: s) ox).
+  Proof.
+    intros fv vs c2 s t ox H. apply (runs_instr _ OP_DYNAMIC_CALL [_] c2 _ (dyn_m fv vs)); [|exact H].
+    intros g. cbn [vop app read8].
+    mret. rewrite Nat2N.id, <- (map_length SV vs), pop_n_rev. mret. rewrite vals_of_SV. mret.
+    rewrite pop_val_SV. mret. unfold dyn_m.
+    destruct fv; try reflexivity. destruct t0; try reflexivity. destruct lazy; reflexivity.
+  Qed.
+
+  Lemma vop_intrinsic : forall cont o bf k r s, intrinsic_sem o = Some (bf, k) -> o <> OP_ADD_NUM ->
+    vop' cont o r s =
+    (let^ (xs, s1) := pop_n k s [] in let^ vs := vals_of xs in
+     let^ res := bsem ops orc bf vs in cont r (SV res :: s1)).
+  Proof.
+    intros cont o bf k r s H Hn. destruct o; try discriminate H; try (exfalso; apply Hn; reflexivity);
+      cbn [vop]; rewrite H; reflexivity.
+  Qed.
+
+  Lemma instr_intrinsic : forall o bf vs c2 s t ox,
+    intrinsic_sem o = Some (bf, List.length vs) -> bsem ops orc bf vs = (t, ox) -> is_fault ox = false ->
+    runs [op_byte o] c2 (rev (map SV vs) ++ s) t (omap (fun e => SV e :: s) ox).
+  Proof.
+    intros o bf vs c2 s t ox Hi H Hnf.
+    assert (Hd : o = OP_ADD_NUM \/ o <> OP_ADD_NUM) by (destruct o; (left; reflexivity) || (right; discriminate)).
+    destruct Hd as [Hd|Hd].
+    - subst o. cbn in Hi. inversion Hi; subst bf. destruct vs as [|v [|? ?]]; try discriminate.
+      cbn in H. inversion H; subst. cbn [omap map rev app].
+      apply runs_instr0. intros g. reflexivity.
+    - apply (runs_instr _ o [] c2 _ (bsem ops orc bf vs)); [|exact H].
+      intros g. rewrite (vop_intrinsic _ _ _ _ _ _ Hi Hd).
+      rewrite <- (map_length SV vs), pop_n_rev. mret. rewrite vals_of_SV. mret. reflexivity.
+  Qed.
+
+  Lemma instr_return : forall g v s, loop (S g) [op_byte OP_RETURN] (SV v :: s) None = ret v.
+  Proof. intros. rewrite loop_S. cbn [vop]. rewrite pop_val_SV, mbind_ret_l. reflexivity. Qed.
+End Exec.
+
+(* ------------------------------------------------------------------ *)
+(* fragments at a position of any complete code object, over any pool extending the compiler's *)
+Definition eventually (A : nat -> Prop) : Prop := exists F0, forall F, (F0 <= F)%nat -> A F.
+
+Lemma ev_all : forall (A : nat -> Prop), (forall F, A F) -> eventually A.
+Proof. intros A H. exists O. intros F _. apply H. Qed.
+Lemma ev_and : forall A A', eventually A -> eventually A' -> eventually (fun F => A F /\ A' F).
+Proof.
+  intros A A' [F1 H1] [F2 H2]. exists (Nat.max F1 F2). intros F HF. split; [apply H1|apply H2]; lia.
+Qed.
+Lemma ev_mono : forall (A A' : nat -> Prop), (forall F, A F -> A' F) -> eventually A -> eventually A'.
+Proof. intros A A' H [F0 H0]. exists F0. intros F HF. apply H, H0, HF. Qed.
+
+Section ExecAt.
+  Variable ops : numops.
+  Variable orc : oracles.
+  Variable rho : venv.
+
+  Definition exec (F : nat) (pc : nat) (frag : list N) (pl : list const) (t : list event)
+             (pre : list sval) (o : outcome (list sval)) : Prop :=
+    forall code pool c2 s, skipn pc code = frag ++ c2 -> pool_ext pl pool ->
+      runs ops orc rho pool (vm_run ops orc rho pool None F) code frag c2 (rev pre ++ s) t
+           (omap (fun xs => rev xs ++ s) o).
+
+  Lemma exec_seq : forall F pc f1 f2 pl t1 t2 pre xs1 o2,
+    exec F pc f1 pl t1 pre (OVal xs1) -> exec F (pc + List.length f1) f2 pl t2 xs1 o2 ->
+    exec F pc (f1 ++ f2) pl (t1 ++ t2) pre o2.
+  Proof.
+    intros F pc f1 f2 pl t1 t2 pre xs1 o2 H1 H2 code pool c2 s Hsk Hp.
+    rewrite <- app_assoc in Hsk.
+    eapply runs_seq.
+    - apply (H1 code pool (f2 ++ c2) s Hsk Hp).
+    - apply (H2 code pool c2 s); [|exact Hp]. apply skipn_more with (a := f1). exact Hsk.
+  Qed.
+
+  Lemma exec_seq_fail : forall F pc f1 f2 pl t1 pre k,
+    exec F pc f1 pl t1 pre (OFail k) -> exec F pc (f1 ++ f2) pl t1 pre (OFail k).
+  Proof.
+    intros F pc f1 f2 pl t1 pre k H1 code pool c2 s Hsk Hp.
+    rewrite <- app_assoc in Hsk. apply runs_seq_fail. apply (H1 code pool (f2 ++ c2) s Hsk Hp).
+  Qed.
+
+  Lemma exec_frame : forall F pc f pl t pre o pre0,
+    exec F pc f pl t pre o -> exec F pc f pl t (pre0 ++ pre) (omap (app pre0) o).
+  Proof.
+    intros F pc f pl t pre o pre0 H code pool c2 s Hsk Hp.
+    specialize (H code pool c2 (rev pre0 ++ s) Hsk Hp).
+    rewrite rev_app_distr, <- app_assoc.
+    destruct o as [xs|k|k]; cbn [omap] in *; try exact H.
+    rewrite rev_app_distr, <- app_assoc. exact H.
+  Qed.
+
+  Lemma exec_pool : forall F pc f pl pl' t pre o, pool_ext pl pl' -> exec F pc f pl t pre o -> exec F pc f pl' t pre o.
+  Proof.
+    intros F pc f pl pl' t pre o Hpp H code pool c2 s Hsk Hp. apply H; [exact Hsk|].
+    eapply pool_ext_trans; eassumption.
+  Qed.
+
+  Lemma exec_nil : forall F pc pl pre, exec F pc [] pl [] pre (OVal pre).
+  Proof. intros F pc pl pre code pool c2 s _ _. apply runs_nil. Qed.
+
+  (* children pushed one after the other *)
+  Lemma exec_push : forall F pc f1 f2 pl t1 t2 xs1 o2,
+    exec F pc f1 pl t1 [] (OVal xs1) -> exec F (pc + List.length f1) f2 pl t2 [] o2 ->
+    exec F pc (f1 ++ f2) pl (t1 ++ t2) [] (omap (app xs1) o2).
+  Proof.
+    intros F pc f1 f2 pl t1 t2 xs1 o2 H1 H2. eapply exec_seq; [exact H1|].
+    pose proof (exec_frame _ _ _ _ _ _ _ xs1 H2) as H. rewrite app_nil_r in H. exact H.
+  Qed.
+
+  Lemma exec_const : forall F pc pl idx v, nth_error pl (N.to_nat idx) = Some (CVal v) ->
+    exec F pc (op_byte OP_CONST :: b16 idx) pl [] [] (OVal [SV v]).
+  Proof.
+    intros F pc pl idx v H code pool c2 s _ Hp. apply instr_const. eapply pool_ext_nth; eassumption.
+  Qed.
+
+  Lemma exec_thunk : forall F pc pl idx body rt, nth_error pl (N.to_nat idx) = Some (CThunk body rt) ->
+    exec F pc (op_byte OP_CONST :: b16 idx) pl [] [] (OVal [STh body rt]).
+  Proof.
+    intros F pc pl idx body rt H code pool c2 s _ Hp. apply instr_thunk. eapply pool_ext_nth; eassumption.
+  Qed.
+
+  Lemma exec_load : forall F pc pl idx nm v, nth_error pl (N.to_nat idx) = Some (CName nm) -> assoc nm rho = Some v ->
+    exec F pc (op_byte OP_LOAD :: b16 idx) pl [] [] (OVal [SV v]).
+  Proof.
+    intros F pc pl idx nm v H Ha code pool c2 s _ Hp. eapply instr_load; [|exact Ha]. eapply pool_ext_nth; eassumption.
+  Qed.
+
+  Lemma exec_jump : forall F pc pl t junk, N.to_nat t = (pc + List.length (op_byte OP_JUMP :: b16 t ++ junk))%nat ->
+    exec F pc (op_byte OP_JUMP :: b16 t ++ junk) pl [] [] (OVal []).
+  Proof.
+    intros F pc pl t junk Ht code pool c2 s Hsk _. apply (instr_jump _ _ _ _ _ _ t junk c2 s).
+    rewrite Ht. apply skipn_more with (a := op_byte OP_JUMP :: b16 t ++ junk). exact Hsk.
+  Qed.
+
+  Lemma exec_if_true : forall F pc pl t,
+    exec F pc (op_byte OP_IF_TRUE :: b16 t) pl [] [SV (VBool true)] (OVal []).
+  Proof. intros F pc pl t code pool c2 s _ _. apply instr_if_true. Qed.
+
+  Lemma exec_if_false : forall F pc pl t junk,
+    N.to_nat t = (pc + List.length (op_byte OP_IF_TRUE :: b16 t ++ junk))%nat ->
+    exec F pc (op_byte OP_IF_TRUE :: b16 t ++ junk) pl [] [SV (VBool false)] (OVal []).
+  Proof.
+    intros F pc pl t junk Ht code pool c2 s Hsk _. apply (instr_if_false _ _ _ _ _ _ t junk c2 s).
+    rewrite Ht. apply skipn_more with (a := op_byte OP_IF_TRUE :: b16 t ++ junk). exact Hsk.
+  Qed.
+
+  Lemma exec_new_list : forall F pc pl idx e vs, nth_error pl (N.to_nat idx) = Some (CType (TList e)) ->
+    exec F pc (op_byte OP_NEW_LIST :: b16 idx ++ b16 (N.of_nat (List.length vs))) pl [] (map SV vs)
+         (OVal [SV (VList (TList e) vs)]).
+  Proof.
+    intros F pc pl idx e vs H code pool c2 s _ Hp. apply instr_new_list. eapply pool_ext_nth; eassumption.
+  Qed.
+
+  Lemma exec_new_map : forall F pc pl idx kt vt vs sz entries,
+    nth_error pl (N.to_nat idx) = Some (CType (TMap kt vt)) ->
+    List.length vs = (2 * sz)%nat -> vm_entries ops vs [] = ret entries ->
+    exec F pc (op_byte OP_NEW_MAP :: b16 idx ++ b16 (N.of_nat sz)) pl [] (map SV vs)
+         (OVal [SV (VMap (TMap kt vt) entries)]).
+  Proof.
+    intros F pc pl idx kt vt vs sz entries H Hl He code pool c2 s _ Hp.
+    apply instr_new_map; try assumption. eapply pool_ext_nth; eassumption.
+  Qed.
+
+  Lemma exec_new_obj : forall F pc pl idx fs vs, nth_error pl (N.to_nat idx) = Some (CType (TObj fs)) ->
+    len fs = List.length vs ->
+    exec F pc (op_byte OP_NEW_OBJ :: b16 idx) pl [] (map SV vs) (OVal [SV (VObj (TObj fs) vs)]).
+  Proof.
+    intros F pc pl idx fs vs H Hl code pool c2 s _ Hp. apply instr_new_obj; [|exact Hl]. eapply pool_ext_nth; eassumption.
+  Qed.
+
+  Lemma omap_omap : forall X Y Z (f : X -> Y) (g : Y -> Z) o, omap g (omap f o) = omap (fun x => g (f x)) o.
+  Proof. intros X Y Z f g [x|k|k]; reflexivity. Qed.
+
+  Lemma exec_list_load : forall F pc pl iv ty vs t ox, list_load_m ops iv vs = (t, ox) ->
+    exec F pc [op_byte OP_LIST_LOAD] pl t [SV (VList ty vs); SV iv] (omap (fun e => [SV e]) ox).
+  Proof.
+    intros F pc pl iv ty vs t ox H code pool c2 s _ _. rewrite omap_omap. cbn [rev app].
+    apply instr_list_load. exact H.
+  Qed.
+
+  Lemma exec_map_load : forall F pc pl kv ty kvs t ox, map_load_m ops kv kvs = (t, ox) ->
+    exec F pc [op_byte OP_MAP_LOAD] pl t [SV (VMap ty kvs); SV kv] (omap (fun e => [SV e]) ox).
+  Proof.
+    intros F pc pl kv ty kvs t ox H code pool c2 s _ _. rewrite omap_omap. cbn [rev app].
+    apply instr_map_load. exact H.
+  Qed.
+
+  Lemma exec_obj_load : forall F pc pl idx cidx nm ov t ox,
+    nth_error pl (N.to_nat cidx) = Some (CName nm) -> member_m ov idx nm = (t, ox) ->
+    exec F pc (op_byte OP_OBJ_LOAD :: b16 (N.of_nat idx) ++ b16 cidx) pl t [SV ov] (omap (fun e => [SV e]) ox).
+  Proof.
+    intros F pc pl idx cidx nm ov t ox Hn H code pool c2 s _ Hp. rewrite omap_omap. cbn [rev app].
+    apply instr_obj_load with (nm := nm); [|exact H]. eapply pool_ext_nth; eassumption.
+  Qed.
+
+  Lemma exec_call_by_value : forall F pc pl cidx sg vs t ox,
+    nth_error pl (N.to_nat cidx) = Some (CFun sg) -> apply_strict ops orc sg vs = (t, ox) ->
+    exec F pc (op_byte OP_CALL_BY_VALUE :: b16 cidx ++ [N.of_nat (List.length vs)]) pl t (map SV vs)
+         (omap (fun e => [SV e]) ox).
+  Proof.
+    intros F pc pl cidx sg vs t ox Hn H code pool c2 s _ Hp. rewrite omap_omap. cbn [rev app].
+    apply instr_call_by_value with (sg := sg); [|exact H]. eapply pool_ext_nth; eassumption.
+  Qed.
+
+  Lemma exec_dynamic_call : forall F pc pl fv vs t ox, dyn_m ops orc fv vs = (t, ox) ->
+    exec F pc [op_byte OP_DYNAMIC_CALL; N.of_nat (List.length vs)] pl t (SV fv :: map SV vs) (omap (fun e => [SV e]) ox).
+  Proof.
+    intros F pc pl fv vs t ox H code pool c2 s _ _. rewrite omap_omap. cbn [rev app]. rewrite <- app_assoc. cbn [app].
+    apply instr_dynamic_call. exact H.
+  Qed.
+
+  Lemma exec_intrinsic : forall F pc pl o bf vs t ox,
+    intrinsic_sem o = Some (bf, List.length vs) -> bsem ops orc bf vs = (t, ox) -> is_fault ox = false ->
+    exec F pc [op_byte o] pl t (map SV vs) (omap (fun e => [SV e]) ox).
+  Proof.
+    intros F pc pl o bf vs t ox Hi H Hnf code pool c2 s _ _. rewrite omap_omap. cbn [rev app].
+    eapply instr_intrinsic; eassumption.
+  Qed.
+End ExecAt.
+
+(* ------------------------------------------------------------------ *)
+(* the evaluator: unfolding and inversion *)
+Lemma mbind_inv : forall X Y (m : M X) (k : X -> M Y) t o, mbind m k = (t, o) -> is_fault o = false ->
+  (exists t1 x t2, m = (t1, OVal x) /\ k x = (t2, o) /\ t = t1 ++ t2) \/
+  (exists kf, m = (t, OFail kf) /\ o = OFail kf).
+Proof.
+  intros X Y [t1 [x|kf|kf]] k t o H Hnf.
+  - left. rewrite mbind_val in H. destruct (k x) as [t2 o2] eqn:E. unfold tpre in H. cbn in H. inversion H; subst.
+    exists t1, x, t2. auto.
+  - right. cbn in H. inversion H; subst. exists kf. auto.
+  - cbn in H. inversion H; subst. discriminate.
+Qed.
+
+Lemma mmapM_cons : forall X Y (g : X -> M Y) x r,
+  mmapM g (x :: r) = mbind (g x) (fun y => mbind (mmapM g r) (fun ys => ret (y :: ys))).
+Proof. reflexivity. Qed.
+
+Lemma mmapM_cons_val : forall X Y (g : X -> M Y) x r t1 v t2 o2,
+  g x = (t1, OVal v) -> mmapM g r = (t2, o2) -> mmapM g (x :: r) = (t1 ++ t2, omap (cons v) o2).
+Proof.
+  intros X Y g x r t1 v t2 o2 H1 H2. rewrite mmapM_cons, H1, mbind_val, H2.
+  destruct o2 as [ys|k|k]; cbn; rewrite ?app_nil_r; reflexivity.
+Qed.
+
+Lemma mmapM_cons_fail : forall X Y (g : X -> M Y) x r t1 k,
+  g x = (t1, OFail k) -> mmapM g (x :: r) = (t1, OFail k).
+Proof. intros X Y g x r t1 k H1. rewrite mmapM_cons, H1. reflexivity. Qed.
+
+Lemma mmapM_cons_inv : forall X Y (g : X -> M Y) x r t o, mmapM g (x :: r) = (t, o) -> is_fault o = false ->
+  (exists t1 v t2 o2, g x = (t1, OVal v) /\ mmapM g r = (t2, o2) /\ t = t1 ++ t2 /\ o = omap (cons v) o2 /\
+                      is_fault o2 = false) \/
+  (exists k, g x = (t, OFail k) /\ o = OFail k).
+Proof.
+  intros X Y g x r t o H Hnf. destruct (g x) as [t1 [v|k|k]] eqn:E1.
+  - left. destruct (mmapM g r) as [t2 o2] eqn:E2.
+    rewrite (mmapM_cons_val _ _ g x r _ _ _ _ E1 E2) in H. inversion H; subst.
+    exists t1, v, t2, o2. repeat split; try reflexivity. destruct o2; [reflexivity|reflexivity|discriminate].
+  - right. rewrite (mmapM_cons_fail _ _ g x r _ _ E1) in H. inversion H; subst. exists k. auto.
+  - rewrite mmapM_cons, E1 in H. cbn in H. inversion H; subst. discriminate.
+Qed.
+
+Lemma mmapM_length : forall X Y (g : X -> M Y) l t ys, mmapM g l = (t, OVal ys) -> List.length ys = List.length l.
+Proof.
+  intros X Y g. induction l as [|x r IH]; intros t ys H.
+  - cbn in H. inversion H. reflexivity.
+  - destruct (mmapM_cons_inv _ _ g x r t (OVal ys) H eq_refl) as [[t1 [v [t2 [o2 [H1 [H2 [Ht [Ho _]]]]]]]]|[k [_ Hk]]]; [|discriminate].
+    destruct o2 as [ys'|?|?]; try discriminate. cbn in Ho. inversion Ho; subst. cbn. f_equal. eapply IH. exact H2.
+Qed.
+
+Lemma mmapM_map : forall X Y Z (h : X -> Y) (g : Y -> M Z) l, mmapM (fun x => g (h x)) l = mmapM g (map h l).
+Proof.
+  intros X Y Z h g. induction l as [|x r IH]; [reflexivity|].
+  cbn [map]. rewrite !mmapM_cons, IH. reflexivity.
+Qed.
+
+Lemma key_of_cases : forall ops v, (exists kk, key_of ops v = ret kk) \/ key_of ops v = fault XOther.
+Proof. intros ops v. destruct v; cbn; try (right; reflexivity); left; eexists; reflexivity. Qed.
+
+Definition flatten (kvs : list (aexpr * aexpr)) : list aexpr := flat_map (fun kv => [fst kv; snd kv]) kvs.
+
+Section EvalSide.
+  Variable ops : numops.
+  Variable orc : oracles.
+  Variable fe : fenv.
+  Variable rho : venv.
+  Notation eval := (eval ops orc fe rho).
+
+  Definition call_m (f : nat) (sg : fsig) (args : list aexpr) : M val :=
+    if s_lazy sg then
+      (if sig_is_builtin sg then apply_lazy sg else host_lazy (s_name sg)) (map (fun x (_ : unit) => eval f x) args)
+    else let^ vs := mmapM (eval f) args in apply_strict ops orc sg vs.
+
+  Definition eval_entries (f : nat) : list (aexpr * aexpr) -> list (list N * val) -> M (list (list N * val)) :=
+    fix go (kvs : list (aexpr * aexpr)) (acc : list (list N * val)) : M (list (list N * val)) :=
+      match kvs with
+      | [] => ret acc
+      | (k, v) :: r =>
+          let^ kv := eval f k in let^ kk := key_of ops kv in
+          let^ vv := eval f v in go r (kput kk vv acc)
+      end.
+
+  Lemma eval_list_eq : forall f t es, eval (S f) (AList t es) =
+    match es with [] => ret (VList (TList TBot) []) | _ => let^ vs := mmapM (eval f) es in ret (VList t vs) end.
+  Proof. reflexivity. Qed.
+  Lemma eval_map_eq : forall f t kvs, eval (S f) (AMap t kvs) =
+    match kvs with [] => ret (VMap (TMap TBot TBot) []) | _ => let^ entries := eval_entries f kvs [] in ret (VMap t entries) end.
+  Proof. reflexivity. Qed.
+  Lemma eval_obj_eq : forall f t fs, eval (S f) (AObj t fs) =
+    match fs with [] => ret (VObj (TObj []) []) | _ => let^ vs := mmapM (fun nf => eval f (snd nf)) fs in ret (VObj t vs) end.
+  Proof. reflexivity. Qed.
+  Lemma eval_ident_eq : forall f c name, eval (S f) (AIdent c name) =
+    match assoc name rho with Some v => ret v | None => fault XOther end.
+  Proof. reflexivity. Qed.
+  Lemma eval_call_eq : forall f col key idx fty callee args, eval (S f) (ACall col key idx fty callee args) =
+    if String.eqb key "" then
+      (let^ fv := eval f callee in
+       match fv with
+       | VFun (TFun n ps r) name lz => call_m f (mkSig name ps r lz) args
+       | _ => fault XTypeConf
+       end)
+    else match lookup_fn fe key idx with Some sg => call_m f sg args | None => fault XOther end.
+  Proof. reflexivity. Qed.
+  Lemma eval_sub_eq : forall f c vty v i, eval (S f) (ASub c vty v i) =
+    (let^ x := eval f v in
+     match x with
+     | VList _ vs => let^ iv := eval f i in list_load_m ops iv vs
+     | VMap _ kvs => let^ kv := eval f i in map_load_m ops kv kvs
+     | _ => fault XUnreachable
+     end).
+  Proof. reflexivity. Qed.
+  Lemma eval_member_eq : forall f c oty idx o name, eval (S f) (AMember c oty idx o name) =
+    (let^ ov := eval f o in member_m ov idx name).
+  Proof. reflexivity. Qed.
+
+  Lemma entries_inv : forall f kvs acc t o, eval_entries f kvs acc = (t, o) -> is_fault o = false ->
+    (exists vs entries, mmapM (eval f) (flatten kvs) = (t, OVal vs) /\ o = OVal entries /\
+                        vm_entries ops vs acc = ret entries /\ List.length vs = (2 * List.length kvs)%nat) \/
+    (exists k, o = OFail k /\ mmapM (eval f) (flatten kvs) = (t, OFail k)).
+  Proof.
+    intros f. induction kvs as [|[k v] r IH]; intros acc t o H Hnf.
+    - cbn in H. inversion H; subst. left. exists [], acc. repeat split; reflexivity.
+    - cbn [eval_entries] in H. fold (eval_entries f) in H.
+      destruct (mbind_inv _ _ _ _ _ _ H Hnf) as [[t1 [kv [t2 [Hk [H2 Ht]]]]]|[kf [Hk Ho]]].
+      2:{ right. exists kf. split; [exact Ho|]. cbn [flatten flat_map fst snd app].
+          apply mmapM_cons_fail. exact Hk. }
+      destruct (key_of_cases ops kv) as [[kk Hkk]|Hkk]; rewrite Hkk in H2.
+      2:{ cbn in H2. inversion H2; subst. discriminate. }
+      rewrite mbind_ret_l in H2.
+      destruct (mbind_inv _ _ _ _ _ _ H2 Hnf) as [[t3 [vv [t4 [Hv [H4 Ht2]]]]]|[kf [Hv Ho]]].
+      2:{ right. exists kf. split; [exact Ho|]. cbn [flatten flat_map fst snd app].
+          rewrite (mmapM_cons_val _ _ (eval f) k _ _ _ _ _ Hk (mmapM_cons_fail _ _ (eval f) v _ _ _ Hv)).
+          subst t. reflexivity. }
+      destruct (IH _ _ _ H4 Hnf) as [[vs [entries [Hm [Ho [He Hl]]]]]|[kf [Ho Hm]]].
+      + left. exists (kv :: vv :: vs), entries. cbn [flatten flat_map fst snd app]. fold (flatten r).
+        repeat split.
+        * rewrite (mmapM_cons_val _ _ (eval f) k _ _ _ _ _ Hk (mmapM_cons_val _ _ (eval f) v _ _ _ _ _ Hv Hm)).
+          subst. reflexivity.
+        * exact Ho.
+        * cbn [vm_entries]. fold (vm_entries ops). rewrite Hkk, mbind_ret_l. exact He.
+        * cbn [List.length]. rewrite Hl. lia.
+      + right. exists kf. split; [exact Ho|]. cbn [flatten flat_map fst snd app]. fold (flatten r).
+        rewrite (mmapM_cons_val _ _ (eval f) k _ _ _ _ _ Hk (mmapM_cons_val _ _ (eval f) v _ _ _ _ _ Hv Hm)).
+        subst. reflexivity.
+  Qed.
+
+  (* ---- the side condition: annotations agree with the values ---- *)
+  Definition kind_agrees (vty : ty) (x : val) : Prop :=
+    match x with VList _ _ => ty_is_list vty = true | VMap _ _ => ty_is_list vty = false | _ => True end.
+  Definition not_lazy_fun (x : val) : Prop := match x with VFun _ _ true => False | _ => True end.
+
+  Fixpoint subs_agree (a : aexpr) : Prop :=
+    match a with
+    | AStr _ | ANum _ _ | ATime _ | ABool _ | AIdent _ _ => True
+    | AList t es =>
+        (exists e, t = TList e) /\ (es = [] -> t = TList TBot) /\
+        (fix all (l : list aexpr) : Prop := match l with [] => True | x :: r => subs_agree x /\ all r end) es
+    | AMap t kvs =>
+        (exists k v, t = TMap k v) /\ (kvs = [] -> t = TMap TBot TBot) /\
+        (fix all (l : list (aexpr * aexpr)) : Prop :=
+           match l with [] => True | (k, v) :: r => subs_agree k /\ subs_agree v /\ all r end) kvs
+    | AObj t fs =>
+        (exists tfs, t = TObj tfs /\ len tfs = len fs) /\
+        (fix all (l : list (string * aexpr)) : Prop :=
+           match l with [] => True | (_, v) :: r => subs_agree v /\ all r end) fs
+    | ACall _ key _ _ callee args =>
+        (fix all (l : list aexpr) : Prop := match l with [] => True | x :: r => subs_agree x /\ all r end) args /\
+        (key = "" -> subs_agree callee /\ forall f t x, eval f callee = (t, OVal x) -> not_lazy_fun x)
+    | ASub _ vty v i =>
+        subs_agree v /\ subs_agree i /\ forall f t x, eval f v = (t, OVal x) -> kind_agrees vty x
+    | AMember _ _ _ o _ => subs_agree o
+    end.
+
+  Lemma all_list : forall l,
+    (fix all (l : list aexpr) : Prop := match l with [] => True | x :: r => subs_agree x /\ all r end) l <->
+    Forall subs_agree l.
+  Proof.
+    induction l as [|x r IH]; split; intros H.
+    - constructor. - exact I.
+    - destruct H as [H1 H2]. constructor; [exact H1|apply IH; exact H2].
+    - inversion H; subst. split; [assumption|apply IH; assumption].
+  Qed.
+  Lemma all_kvs : forall l,
+    (fix all (l : list (aexpr * aexpr)) : Prop :=
+       match l with [] => True | (k, v) :: r => subs_agree k /\ subs_agree v /\ all r end) l <->
+    Forall subs_agree (flatten l).
+  Proof.
+    induction l as [|[k v] r IH]; split; intros H.
+    - constructor. - exact I.
+    - destruct H as [H1 [H2 H3]]. cbn. constructor; [exact H1|]. constructor; [exact H2|]. apply IH. exact H3.
+    - cbn in H. inversion H as [|? ? H1 H']; subst. inversion H' as [|? ? H2 H3]; subst.
+      split; [assumption|]. split; [assumption|]. apply IH. exact H3.
+  Qed.
+  Lemma all_fields : forall l,
+    (fix all (l : list (string * aexpr)) : Prop :=
+       match l with [] => True | (_, v) :: r => subs_agree v /\ all r end) l <->
+    Forall subs_agree (map snd l).
+  Proof.
+    induction l as [|[k v] r IH]; split; intros H.
+    - constructor. - exact I.
+    - destruct H as [H1 H2]. cbn. constructor; [exact H1|apply IH; exact H2].
+    - cbn in H. inversion H; subst. split; [assumption|apply IH; assumption].
+  Qed.
+End EvalSide.
